@@ -48,10 +48,10 @@ func checkC07(c *hx.Checker) {
 	}
 	c.Rule = "Reshape targets of length 1..3 over {-6,-4,-3,-2,-1,1,2,3} with at least one entry below -1 on 4 shapes (op and model route); Unsqueeze to output rank 8, 9, 10 from 4 shapes (contiguous runs of new axes at every offset, run + last / -1 / out-of-range position, duplicate at the last position, all-negative); " +
 		fmt.Sprintf("inputs: all shapes of Box(rank 0..%d, extents {1,2,3}) with distinct float32 fill. Reshape: every target of rank 1..4 over {-1,0,1,2,3,4,6} (valid and invalid as decided by the reference); "+
-		"Flatten: every axis in [-rank-1, rank+1] and axis absent; Squeeze: axes absent + every axes sequence of length 1..%d over [-rank-1, rank] (both spellings, unsorted, duplicated, out of range, extent != 1); "+
-		"Unsqueeze: every axes sequence of length 1..%d over [-(r+k)-1, r+k]; Shape: every shape; all 14 element types on the rank<=2 extents {1,2} sub-box; single-node Model.Run route (operand as input and as initializer) on that sub-box; "+
-		"each case also runs on an operator instance that already served another case of the same node (instance reuse). non-trivial = request changes the shape or must be refused. "+
-		"Not enumerable: zero-length shape/axes operands and rank-0 Reshape targets (gorgonia cannot construct a 0-element tensor)", maxRank, maxAxes, maxAxes)
+			"Flatten: every axis in [-rank-1, rank+1] and axis absent; Squeeze: axes absent + every axes sequence of length 1..%d over [-rank-1, rank] (both spellings, unsorted, duplicated, out of range, extent != 1); "+
+			"Unsqueeze: every axes sequence of length 1..%d over [-(r+k)-1, r+k]; Shape: every shape; all 14 element types on the rank<=2 extents {1,2} sub-box; single-node Model.Run route (operand as input and as initializer) on that sub-box; "+
+			"each case also runs on an operator instance that already served another case of the same node (instance reuse). non-trivial = request changes the shape or must be refused. "+
+			"Not enumerable: zero-length shape/axes operands and rank-0 Reshape targets (gorgonia cannot construct a 0-element tensor)", maxRank, maxAxes, maxAxes)
 	c.Assumptions = []string{"reference: ONNX operator text transcribed as shape arithmetic (ref/shapeops.go); element order = identity on the row-major backing"}
 	var jobs []opJob
 	add := func(op string, attrs []hx.Attr, ins []*ref.T, exp *ref.T, err error, route string, init []bool, nt bool, desc string, extra ...string) {
